@@ -284,6 +284,7 @@ func (s *Service) Stop(drainTimeout time.Duration, message string) error {
 	}
 
 	slog.Info("Service stopped", "service", s.name)
+	verifPoint("service.gate.set", s.name, "stop")
 
 	s.Drain(drainTimeout)
 	slog.Info("Service drained", "service", s.name)
@@ -297,6 +298,7 @@ func (s *Service) Pause(drainTimeout time.Duration, pauseTimeout time.Duration) 
 	}
 
 	slog.Info("Service paused", "service", s.name)
+	verifPoint("service.gate.set", s.name, "pause")
 
 	s.Drain(drainTimeout)
 	slog.Info("Service drained", "service", s.name)
@@ -423,6 +425,7 @@ func (s *Service) serviceRequestWithTarget(w http.ResponseWriter, r *http.Reques
 		return
 	}
 
+	verifPoint("service.gate.passed", r, s.name)
 	lb := s.loadBalancerForRequest(r)
 	lb.ServeHTTP(w, r)
 }
